@@ -33,7 +33,7 @@ func init() {
 	reg("struct", 4, func(c *caseWriter, in []string) {
 		ra := runTemplate(in[0], in[1], dataFromWire(in[2]), false)
 		rb := runTemplate(in[0], in[1], dataFromWire(in[3]), false)
-		c.Case("struct", hx(in[0]), hx(in[1]), hx(in[2]), hx(in[3]), ra.outcome, hx(ra.out), rb.outcome, hx(rb.out), parsedWire("main", in[0]))
+		c.Case("struct", hx(in[0]), hx(in[1]), hx(in[2]), hx(in[3]), ra.outcome, hx(ra.out), rb.outcome, hx(rb.out), parsedWire("main", in[0]), c01Author(in[0], in[1]))
 	})
 	reg("placement", 3, func(c *caseWriter, in []string) {
 		r := runTemplate(in[0], in[1], dataFromWire(in[2]), false)
@@ -47,6 +47,41 @@ func init() {
 		}
 		c.Case("placement", hx(in[0]), hx(in[1]), hx(in[2]), r.outcome, hx(r.out), spans, parsedWire("main", in[0]))
 	})
+}
+
+// c01Author returns (in hex) the author's own markup of a template without control structures: the text
+// with every action on an untrusted leaf replaced by the inert placeholder and every template comment
+// removed; "-" when the template has anything else (control structures, safe-typed leaves, pipelines).
+var c01ActionRE = regexp.MustCompile(`\{\{[^{}]*\}\}`)
+var c01LeafRE = regexp.MustCompile(`^\{\{ *\.(A|B|U|S) *\}\}$`)
+var c01CommentRE = regexp.MustCompile(`^\{\{/\*[^{}]*\*/\}\}$`)
+
+// markup the engine deliberately turns into text, or that a tokenizer reads as a bogus comment / leaves
+// unfinished: a tag opener followed by an action or by something that cannot start a tag name, markup
+// declarations other than comments and DOCTYPE, processing instructions, an opener at the very end
+var c01OddMarkupRE = regexp.MustCompile(`<\{\{|</\{\{|</[^A-Za-z]|</$|<![^-dD]|<!$|<!-[^-]|<!-$|<\?|<$|<[^A-Za-z/!?]`)
+
+func c01Author(text, name string) string {
+	if name != "" || !strings.Contains(text, "{{") {
+		if name != "" {
+			return "-"
+		}
+	}
+	ok := true
+	out := c01ActionRE.ReplaceAllStringFunc(text, func(a string) string {
+		switch {
+		case c01LeafRE.MatchString(a):
+			return "zq"
+		case c01CommentRE.MatchString(a):
+			return ""
+		}
+		ok = false
+		return ""
+	})
+	if !ok || strings.Contains(out, "{{") || strings.Contains(out, "}}") || c01OddMarkupRE.MatchString(text) || c01OddMarkupRE.MatchString(out) {
+		return "-"
+	}
+	return hx(out)
 }
 
 // ---------------------------------------------------------------- data environments
@@ -850,6 +885,16 @@ func runC01(c *caseWriter) (string, bool, map[string]int) {
 		"<td{{if .T}}title=\"{{.A}}\"{{end}}>k</td>", "<td{{template \"attr\" .A}}>k</td>{{define \"attr\"}}title=\"{{.}}\"{{end}}", "<script{{if .T}}x{{end}}>x = \"<!--\";</script>",
 		"<script x=\"y\"</script>{{.A}}", "<title x=\"y\"</title>{{.A}}<b>k</b>", "<STYLE media='m'</style >{{.B}}", "x<title autocorrect=\"x {{.S}}.\"x &amp; y</title>",
 		"<!DOCTYPE {{.A}}><p>k</p>", "<!doctype html {{.A}}>k", "<p>k</p><!DOCTYPE html", "<!DOCTYPE html><p>{{.A}}</p>",
+		// break / continue inside a construct that is still open (the unchanged engine panics on them, finding D7 of
+		// C08; an engine that accepts them must join the jump contexts with the loop's exit)
+		"{{range .L}}<input name=\"n\" {{if $.T}}{{break}}{{end}}>{{end}} {{.A}}>", "{{range .L}}<b title=\"{{if $.T}}{{break}}{{end}}\">k</b>{{end}}{{.A}}\">z</b>",
+		"{{range .L}}<script>{{if $.T}}{{break}}{{end}}</script>{{end}}{{.A}}</script>", "{{range .L}}<a href=\"/x{{if $.T}}{{continue}}{{end}}\">k</a>{{end}} {{.B}}", "{{range .L}}<!--{{if $.T}}{{break}}{{end}}-->{{end}}{{.A}}-->",
+		"{{range .L}}{{if $.T}}<b {{continue}}{{end}}<i>{{.}}</i>{{end}} title=\"{{.A}}\">", "{{range .L}}<textarea>{{if $.T}}{{break}}{{end}}</textarea>{{end}}{{.A}}</textarea><p>k</p>",
+		// bytes that are not ASCII in the body of a special element, before its end tag (an end-tag search on a
+		// lower-cased or re-encoded copy shifts the offsets): invalid UTF-8, runes whose lower case has another length
+		"<textarea>caf\xe9</textarea><b>{{.A}}</b><textarea>y</textarea>", "<title>\u212a\u212a\u212a</title><b title=\"{{.A}}\">k</b><title>t</title>", "<script>var s = \"\u023a\u023a\u023a\";</script><p>{{.A}}</p><script>var t;</script>",
+		"<style>/* \u0130\u0130 */</style><i>{{.B}}</i><style>a{}</style>", "<textarea>\xff\xfe\xc0</textarea><a href=\"/p?q={{.A}}\">k</a><textarea>{{.B}}</textarea>", "<title>\u1e9e\u2126</TITLE><b>{{.A}}</b>",
+		"<TEXTAREA>\u212a</TextArea ><i title='{{.A}}'>k</i>", "<script>/*\xe9\xe9\xe9\xe9*/</SCRIPT><b>{{.A}}</b><script>x</script>", "<style>\u023a{}</style ><b>{{.A}}</b>",
 		// attribute names split over text nodes (D48), names chosen by conditionals followed by further
 		// conditionals (D46, repaired), conditional static prefixes (D47, repaired)
 		"<a title{{/* c */}}/=\"{{.A}}\">k</a>", "<a data-x{{/* c */}}/onclick=\"{{.A}}\">k</a>", "<a title{{if .F}}{{end}}/='{{.A}}'>k</a>", "<iframe src{{/* c */}}doc=\"{{.A}}\"></iframe>",
